@@ -13,6 +13,10 @@ transition / metastable, isotopes mapped to their element for rates only):
   isotope      isotope request served by the element's table (decoy table stored under the isotope symbol is ignored)
   wavelength   photon -> W conversion uses the wavelength of the REQUESTED species (element fallback only with the flag)
   missing_raise / missing_null   policy table for absent file / absent key / absent wavelength
+  history      call-history independence: a random request sequence on ONE rate object (knots, interior, non-positive,
+               out-of-range points repeated 3-4 times, right after in-range / the same / other out-of-range requests)
+               gives, request by request, the bit-identical value or the same exception type as a freshly constructed
+               rate object asked only that request
 """
 import math
 import os
@@ -30,7 +34,8 @@ RULE = ("one case = one private repository written with repository.update_* + on
         "knot spacing >= 0.1 decade) or single-point axes; requested species element or isotope (with decoy tables "
         "stored under the isotope symbol / other charge / other transition / other metastable); scenarios present / "
         "file missing / key missing / wavelength missing; arguments at every knot, at random interior points, "
-        "non-positive, and up to one decade outside each axis. A case is non-trivial when at least one knot "
+        "non-positive, and up to one decade outside each axis; plus, for both permit_extrapolation values, a 25-60 "
+        "request call sequence on one rate object compared request-by-request with fresh rate objects. A case is non-trivial when at least one knot "
         "comparison or one missing-data policy decision was evaluated; distinct = distinct expanded case")
 LEVEL_TEXT = ("Exploration by runtime reference-model monitoring: the real repository writers, readers, OpenADAS "
               "accessors and Cython rate classes are executed on generated repository contents and every returned "
@@ -51,7 +56,8 @@ ASAN = dict(cases=400, workers=8, timecap=240)
 QUICK = dict(cases=700, workers=2, timecap=45)
 THOROUGH = dict(cases=24000, workers=16, timecap=600)
 REQUIRED = {"knot": 60000, "nonneg": 60000, "nonpositive": 8000, "range_raise": 6000, "range_finite": 6000,
-            "isotope": 600, "wavelength": 500, "missing_raise": 400, "missing_null": 1200, "single_point": 300}
+            "isotope": 600, "wavelength": 500, "missing_raise": 400, "missing_null": 1200, "single_point": 300,
+            "history": 8000}
 
 HC_NM = 6.62607015e-34 * 299792458.0 * 1e9      # J.nm   (exact SI 2019 values)
 KNOT_RTOL = 1e-9
@@ -426,6 +432,47 @@ def _eval_points(rng, case, table):
     case["null_args"] = [[float(10 ** rng.uniform(*AXIS_LO[a])) for a in axes] for _ in range(4)]
     case["cx_anchor"] = [float(v) for v in rng.uniform(0, 1, size=d)]
     case["cx_combos"] = rng.uniform(0, 1, size=(12, d)).tolist()
+    case["history"] = _gen_history(rng, d)
+
+
+def _gen_history(rng, d):
+    """call-history workload: distinct requests + a sequence (indices) in which every out-of-range request occurs at
+    least three times: right after an in-range request, right after itself, right after another out-of-range request
+    (other axis / other side) and after a non-positive request"""
+    def at():
+        return [float(v) for v in rng.uniform(0.03, 0.97, size=d)]
+    reqs = []
+    for _ in range(3):
+        reqs.append(dict(kind="knot", at=at()))
+    for _ in range(3):
+        reqs.append(dict(kind="interior", at=at()))
+    for _ in range(2):
+        reqs.append(dict(kind="nonpositive", axis=int(rng.integers(d)), value=[0.0, -1.0, -3.5e7][int(rng.integers(3))], at=at()))
+    inr = list(range(6))
+    npos = [6, 7]
+    outs = []
+    for i in range(d):
+        for side in (-1, 1):
+            outs.append(len(reqs))
+            reqs.append(dict(kind="outside", axis=i, side=side, at=at(),
+                             factor=float([1.0 + 1e-6, 1.01, 2.0, 10.0, 10 ** rng.uniform(1e-3, 1.0)][int(rng.integers(5))])))
+    pick = lambda pool: int(pool[int(rng.integers(len(pool)))])
+    seq = [pick(inr)]
+    for o in [int(v) for v in rng.permutation(outs)]:
+        other = [q for q in outs if q != o]
+        pat = int(rng.integers(5))
+        if pat == 0:
+            seq += [pick(inr), o, o]
+        elif pat == 1:
+            seq += [o, o, o]
+        elif pat == 2:
+            seq += [pick(inr), o, pick(other), o]
+        elif pat == 3:
+            seq += [o, pick(inr), o, o]
+        else:
+            seq += [pick(npos), o, o, pick(inr)]
+    tail = [int(v) for v in rng.permutation(outs + inr + npos)]
+    return dict(requests=reqs, sequence=seq + tail, null=bool(rng.integers(2)), fb=bool(rng.integers(2)))
 
 
 def gen_case(rng, tier):
@@ -979,6 +1026,86 @@ def _judge(case, ctx, adas, acc, req, entry, wl_model, pe, null, fb):
                     ctx.check(math.isfinite(oo.value) and oo.value >= 0, "range:%s:extrapolation-non-finite:%s" % (acc, ARGNAMES[ax]),
                               "%s returned %r for %s within one decade outside the range with permit_extrapolation=True" % (
                                   acc, oo.value, ARGNAMES[ax]), monitor="range_finite", flags=flags, point=p, axis_range=[min(x), max(x)])
+
+
+    # ---------------- call history: outcomes must not depend on what was evaluated before
+    h = case.get("history")
+    if h and bool(h["null"]) == bool(null) and bool(h["fb"]) == bool(fb):
+        _judge_history(case, ctx, adas, acc, req, table, flags)
+
+
+def _hist_args(acc, t, r):
+    axes = AXES[acc]
+    if r["kind"] == "knot" or (acc == "beam_cx_pec" and r["kind"] == "outside"):
+        p = [float(t[a][min(int(u * len(t[a])), len(t[a]) - 1)]) for a, u in zip(axes, r["at"])]
+    else:
+        p = _frac_point(acc, t, r["at"])
+    if r["kind"] == "nonpositive":
+        p[r["axis"]] = float(r["value"])
+    elif r["kind"] == "outside":
+        x = t[axes[r["axis"]]]
+        p[r["axis"]] = float(max(x) * r["factor"] if r["side"] > 0 else min(x) / r["factor"])
+    return p
+
+
+def _outcome_sig(o):
+    if o.exc is not None:
+        return ("raises", type(o.exc).__name__)
+    return ("value", np.float64(o.value).tobytes())
+
+
+def _judge_history(case, ctx, adas, acc, req, table, flags):
+    """One rate object H per stored table answers the whole request sequence; every request is also put, as the ONLY
+    request, to a freshly constructed rate object obtained from the same provider.  Outcomes must be identical
+    (bit-identical value or the same exception type)."""
+    h = case["history"]
+    cargs = _call_args(acc, req)
+    getter = getattr(adas, acc)
+
+    def tables_of(result):
+        if acc == "beam_cx_pec":
+            tabs = {int(m): t for m, t in table.items()}
+            return [(r, tabs[int(r.donor_metastable)], int(r.donor_metastable)) for r in result]
+        return [(result, table, None)]
+
+    H = tables_of(getter(*cargs))
+    # reference outcomes: one fresh provider call per distinct request, each fresh rate object evaluated exactly once
+    ref = {}
+    for qi in sorted(set(h["sequence"])):
+        r = h["requests"][qi]
+        for fr, t, m in tables_of(getter(*cargs)):
+            ref[(qi, m)] = _outcome_sig(_call(fr, *_hist_args(acc, t, r)))
+    for rate, t, m in H:
+        seen = set()
+        for pos, qi in enumerate(h["sequence"]):
+            r = h["requests"][qi]
+            args = _hist_args(acc, t, r)
+            got = _outcome_sig(_call(rate, *args))
+            want = ref[(qi, m)]
+            ctx.mon("history")
+            if got != want:
+                repeat = qi in seen
+                if want[0] == "raises" and got[0] == "value":
+                    k = ("out-of-range-not-raised-on-repeat" if repeat else "out-of-range-not-raised-after-other-calls") \
+                        if r["kind"] == "outside" else "exception-lost-after-previous-calls"
+                elif want[0] == "value" and got[0] == "raises":
+                    k = "raises-depending-on-previous-calls"
+                elif want[0] == "raises":
+                    k = "exception-type-depends-on-previous-calls"
+                else:
+                    k = "value-depends-on-previous-calls"
+                show = lambda sg: sg[1] if sg[0] == "raises" else float(np.frombuffer(sg[1], dtype=np.float64)[0])
+                prev = [h["requests"][j]["kind"] + (":%s%+d" % (AXES[acc][h["requests"][j]["axis"]], h["requests"][j]["side"])
+                                                    if h["requests"][j]["kind"] == "outside" else "") for j in h["sequence"][max(0, pos - 4):pos]]
+                ctx.viol("history:%s:%s" % (acc, k),
+                         "%s: request #%d of a call sequence on one rate object (%s%s) gave %s %r, a fresh rate object gives %s %r for "
+                         "the same arguments" % (acc, pos, r["kind"], (" %s" % ARGNAMES[AXES[acc][r["axis"]]]) if "axis" in r else "",
+                                                 got[0], show(got), want[0], show(want)),
+                         args=args, position=pos, repeated_request=repeat, previous_requests=prev, flags=flags, donor_metastable=m)
+                seen.add(qi)
+                continue
+            seen.add(qi)
+    ctx.nontrivial()
 
 
 def _all_zero(case, acc, rates):
